@@ -145,3 +145,9 @@ class RelayForC08(RelayMode):
 
 def modes(tier):
     return [ChanMapMode(), HubMode("C08"), StressForC08(), TtlForC08(), RelayForC08("C08"), LagMode("C08")]
+
+# the hub's event loop as translated from the current source (Relay/Tie/Hub.lean)
+from tiecommon import TIE_HUB, TIE_HUB_NOTE, TIE_HUB_ASSUMPTION
+THEOREMS = THEOREMS + TIE_HUB
+RULE = TIE_HUB_NOTE + RULE
+ASSUMPTIONS = ASSUMPTIONS + [TIE_HUB_ASSUMPTION]
